@@ -497,7 +497,7 @@ fn cmd_names(maxlen: usize) -> i32 {
     std::panic::set_hook(Box::new(|_| {}));
     let alphabet = ['p', 't', '/', 's', 'é', '-'];
     let stems = ["projects/", "projects/p", "projects/p/topics/", "projects/p/subscriptions/", "projects/p/topic/", "projects//topics/", "project/p/topics/", "projects/p/topics", "projects/pp/tobics/", "",
-                 "projects", "project", "projects/a/b/topics/", "projects/p/subscriptions/s/topics/", "projects/p/topics/t/subscriptions/", "projects/p/x/subscriptions/", "projectsé/p/topics/", "projectsé/p/subscriptions/", "projects/pé/topics/t", "projects/p/topicsé/t", "projects/p/subscriptions/é"];
+                 "projects", "project", "projects/a/b/topics/", "projects/projects/p/topics/", "projects/projects/p/subscriptions/", "projects/projects/topics/", "projects/projects/subscriptions/", "projects/p/topics/topics/", "projects/topics/topics/", "projects/p/subscriptions/s/topics/", "projects/p/topics/t/subscriptions/", "projects/p/x/subscriptions/", "projectsé/p/topics/", "projectsé/p/subscriptions/", "projects/pé/topics/t", "projects/p/topicsé/t", "projects/p/subscriptions/é"];
     let mut n = 0u64;
     // second pass: characters that formatting / escaping code tends to treat specially, after the canonical stems
     let special = ['\'', '"', '\\', '\u{7}', '\n', '\u{301}', ' ', '%', '#', '?', 'a'];
@@ -1230,7 +1230,35 @@ async fn run_bulk_expiry(n_batches: usize) -> Result<(), Fail> {
     }
     Ok(())
 }
+/// C01: a publish reaches every attached subscription also when one of them has a full mailbox at fan-out time
+async fn run_fanout_busy(round: usize) -> Result<(), Fail> {
+    let tm = TopicManager::new();
+    let sm = SubscriptionManager::new(Default::default());
+    let topic = tm.create_topic(TopicName::new("p", "fb")).map_err(|_| Fail { prop: "SETUP", what: "create".into() })?;
+    let idle = sm.create_subscription(SubscriptionInfo::new_with_defaults(SubscriptionName::new("p", "idle")), Arc::clone(&topic)).await.map_err(|_| Fail { prop: "SETUP", what: "create sub".into() })?;
+    let busy = sm.create_subscription(SubscriptionInfo::new_with_defaults(SubscriptionName::new("p", "busy")), Arc::clone(&topic)).await.map_err(|_| Fail { prop: "SETUP", what: "create sub".into() })?;
+    let mut js = tokio::task::JoinSet::new();
+    for _ in 0..(48 + 8 * (round % 3)) { let b = Arc::clone(&busy); js.spawn(async move { let _ = b.get_stats().await; }); }
+    let t2 = Arc::clone(&topic);
+    let publish = tokio::spawn(async move { t2.publish_messages(vec![TopicMessage::new(Bytes::from(vec![7]), None)]).await.map(|r| r.message_ids.len()) });
+    while js.join_next().await.is_some() {}
+    match publish.await { Ok(Ok(1)) => {}, _ => return Err(Fail { prop: "C01+C08", what: "publish to a live topic with two subscriptions failed or returned no id".into() }) }
+    for _ in 0..5 { tokio::task::yield_now().await; }
+    for (name, s) in [("idle", &idle), ("busy", &busy)] {
+        let st = s.get_stats().await.map_err(|_| Fail { prop: "SETUP", what: "stats".into() })?;
+        if st.backlog_messages_count + st.outstanding_messages_count != 1 {
+            return Err(Fail { prop: "C01", what: format!("Publish returned an id; the subscription `{}` (attached throughout, its mailbox busy with other requests at that moment) holds {} of 1 messages", name, st.backlog_messages_count + st.outstanding_messages_count) });
+        }
+    }
+    Ok(())
+}
 fn cmd_wakeup(rounds: usize) -> i32 {
+    for r in 0..rounds.max(6) {
+        if let Err(e) = rt().block_on(run_fanout_busy(r)) {
+            println!("WITNESS {{\"kind\":\"wakeup\",{},\"scenario\":\"fanout_busy\",\"observed\":{:?},\"round\":{}}}", prop_json(e.prop), e.what, r);
+            return 1;
+        }
+    }
     for r in 0..rounds {
         if let Err(e) = rt().block_on(run_wakeup_cancelled(r)) {
             println!("WITNESS {{\"kind\":\"wakeup\",{},\"scenario\":\"cancelled_consumer\",\"observed\":{:?},\"round\":{}}}", prop_json(e.prop), e.what, r);
